@@ -353,3 +353,91 @@ func QuorumFacts(s *common.SrcFile, w io.Writer) error {
 	fmt.Fprintf(w, "(* fanoutForward: the decisions of the response loop, in source order *)\n%s\n", common.EventsCoq("fanout_decisions", sel))
 	return nil
 }
+
+// bookkeeping callees whose order decides "exactly one response per write,
+// all of them before the response channel is closed"
+var sendCallees = map[string]bool{
+	"wg.Add": true, "wg.Done": true, "wg.Wait": true, "close": true, "newWriteResponse": true, "cb": true,
+	"h.tryWrite": true, "h.sendWrite": true, "h.sendWrites": true, "h.prepareRemoteWrite": true,
+	"cl.TryRemoteWriteAsync": true, "cl.RemoteWriteAsync": true, "p.wp.Go": true, "p.wp.TryGo": true,
+	"p.client.RemoteWrite": true, "h.peers.getConnection": true, "p.buildWork": true,
+}
+
+func filterSend(evs []common.Event) []common.Event {
+	var out []common.Event
+	for _, e := range evs {
+		switch e.Kind {
+		case "call", "defer":
+			if sendCallees[e.Text] {
+				out = append(out, e)
+			}
+		case "return":
+			// keep which value is returned only where it decides the protocol
+			t := e.Text
+			if strings.Contains(t, "TryRemoteWriteAsync") || strings.Contains(t, "TryGo") {
+				t = "<try result>"
+			} else if t != "true" && t != "false" && t != "" && t != "nil, nil, nil" {
+				t = "<value>"
+			}
+			out = append(out, common.Event{Kind: "return", Text: t})
+		case "if":
+			t := e.Text
+			if !(strings.Contains(t, "tryWrite") || t == "cl == nil" || t == "err != nil" || strings.Contains(t, "wp.Go")) {
+				t = "<other>"
+			}
+			out = append(out, common.Event{Kind: "if", Text: t})
+		case "endif", "else", "for", "endfor", "funclit", "endfunclit", "go", "endgo":
+			out = append(out, common.Event{Kind: e.Kind})
+		}
+	}
+	return out
+}
+
+// SendFacts writes the bookkeeping skeletons of the functions that turn the
+// distributed writes into responses on fanoutForward's channel.
+func SendFacts(s *common.SrcFile, w io.Writer) error {
+	for _, f := range [][2]string{
+		{"Handler.sendWrites", "sendWrites_protocol"}, {"Handler.tryWrite", "tryWrite_protocol"},
+		{"Handler.sendWrite", "sendWrite_protocol"}, {"Handler.prepareRemoteWrite", "prepareRemoteWrite_protocol"},
+		{"peerWorker.buildWork", "buildWork_protocol"}, {"peerWorker.RemoteWriteAsync", "remoteWriteAsync_protocol"},
+		{"peerWorker.TryRemoteWriteAsync", "tryRemoteWriteAsync_protocol"},
+	} {
+		evs, err := s.CallOrder(f[0])
+		if err != nil {
+			return err
+		}
+		fmt.Fprintf(w, "(* %s: bookkeeping events (WaitGroup, response sends, pool submission) in source order *)\n%s\n", f[0], common.EventsCoq(f[1], filterSend(evs)))
+	}
+	// the goroutine of fanoutForward that runs sendWrites, waits and closes the channel
+	evs, err := s.CallOrder("Handler.fanoutForward")
+	if err != nil {
+		return err
+	}
+	var goEvs []common.Event
+	depth := 0
+	for _, e := range evs {
+		if e.Kind == "go" && depth == 0 {
+			depth = 1
+			goEvs = goEvs[:0]
+			continue
+		}
+		if depth > 0 {
+			if e.Kind == "endgo" {
+				depth = 0
+				found := false
+				for _, g := range goEvs {
+					if g.Kind == "call" && g.Text == "h.sendWrites" {
+						found = true
+					}
+				}
+				if found {
+					break
+				}
+				continue
+			}
+			goEvs = append(goEvs, e)
+		}
+	}
+	fmt.Fprintf(w, "(* fanoutForward: the goroutine that sends the writes, waits for them and closes the response channel *)\n%s\n", common.EventsCoq("fanout_sender_protocol", filterSend(goEvs)))
+	return nil
+}
